@@ -106,6 +106,25 @@ CLAIMED = {
    note="floats as exact reals; incoherent SLD excluded (as the property does); np.maximum kept as an if-then-else term (incoherent part unused)",
    technique="symbolic execution of the real Python functions on z3 Real proxies + SMT (QF_NRA) validity queries with fraction-free normalisation",
    ref='4/C16'),
+
+ 'C06': dict(
+   text=("Partial: the abundance pass of the real mass.init is executed on fresh private tables with synthetic composition texts "
+         "whose abundance values are symbolic (normalisation to 100%, zero for unlisted isotopes, last element of the text "
+         "included); density / number density / interatomic distance relations are proven for symbolic density and masses, and "
+         "unknown density gives None; parse_uncertainty notation is searched by CrossHair. The row-by-row sweep of the embedded "
+         "tables is stated as outside (no symbolic variable)."),
+   note="partial claim: table sweep outside; CrossHair on parse_uncertainty is a counterexample finder ('Not confirmed' = inconclusive)",
+   technique="symbolic execution of the real loader and property functions on z3 Real proxies + SMT validity; CrossHair on the notation parser",
+   ref='4/C06'),
+ 'C07': dict(
+   text=("Partial: the real nsf.init runs on a fresh private table whose selected rows carry symbolic field values (placeholders "
+         "through fix_number): every field is proven to hold its own column, flags/spin/abundance/half-life handling, "
+         "b_c_complex = b_c - i*absorption/(2000*1.798), shared record of single-isotope elements, no-SLD atoms; each "
+         "energy-dependent table is covered for all wavelengths by the interp fork tree (nodes, chords, clamped ends) and at "
+         "every node concretely. The 364-row text sweep is outside."),
+   note="partial claim: table sweep outside; np.interp is an exact semantic model over the concrete node arrays",
+   technique="symbolic execution of the real loader on z3 Real proxies + SMT validity; fork-tree model of numpy.interp; CrossHair on fix_number",
+   ref='4/C07'),
 }
 
 NOT_APPLICABLE = [
